@@ -126,7 +126,10 @@ register("C13", "fault_enumeration",
          "writing, open for reading, rename, remove, mkdir, flock) x {one-off, persistent} for EIO (quick: core menu; "
          "thorough: extended menu x EIO/ENOSPC/EACCES), and seeded random (state history, call, configuration, "
          "knobs, site, errno, mode) runs. distinct+non-trivial = distinct (start state, call, site kind, path "
-         "class, errno, mode) at which the fault actually fired",
+         "class, errno, mode) at which the fault actually fired. conc-fault-* parts: one I/O error injected into a "
+         "multi-task run; the call that met it, and every call on the same pid or validating the same content, is "
+         "neither judged nor trusted (whole effect or none); all other calls' outcomes and all other pids / documents "
+         "read back through the API must be explained by some sequential order ('every other pid's data is untouched')",
          COMMON_ASSUME + ["exactly one injected failure per run; existence probes (stat) are not fault sites",
                           "'persistent' = every later event of the same call on the same target path fails too "
                           "(renaming the failing path away is unaffected)",
@@ -140,7 +143,9 @@ register("C13", "fault_enumeration",
           SingleSweepPart("C13", "FAULT", "fault-sweep-mp", errnos=("EIO",), modes=(False, True), weight=0.4,
                           knob_sets=[dict(mp=True)]),
           SingleRandomPart("C13", "FAULT", "fault-random-ext", weight=0.5, kinds="ext"),
-          SeqIPart("C13", weight=1.2)])
+          SeqIPart("C13", weight=1.2),
+          ConcPart("C13", "obj", name="conc-fault-obj", fault=True, bystander=True, weight=0.8, mp="mixed"),
+          ConcPart("C13", "meta", name="conc-fault-meta", fault=True, bystander=True, weight=0.3, mp="mixed")])
 
 register("C10", "fault_enumeration",
          "three parts: complete sweep of the (start state x call) menu with process death before every mutating "
